@@ -64,11 +64,19 @@ class _A:
 
     def elem_type(self, e):
         t = self.inf.typeof(e)
+        r = "?"
         if isinstance(t, tuple) and t and t[0] == "seq":
-            return t[1]
-        if isinstance(t, tuple) and t and t[0] == "tup":
-            return t[1][0] if t[1] else "?"
-        return "?"
+            r = t[1]
+        elif isinstance(t, tuple) and t and t[0] == "tup":
+            r = t[1][0] if t[1] else "?"
+        if r == "?" and isinstance(e, ast.Name):
+            # a local list filled by append(): the type of what is appended
+            ts = {self.inf.typeof(x.args[0]) for x in ast.walk(self.fn.node)
+                  if isinstance(x, ast.Call) and isinstance(x.func, ast.Attribute) and x.func.attr == "append"
+                  and isinstance(x.func.value, ast.Name) and x.func.value.id == e.id and x.args}
+            if len(ts) == 1:
+                r = ts.pop()
+        return r
 
     def consume(self, v, node):
         for o, l in v:
